@@ -148,6 +148,14 @@ pub enum Op {
         fail_step2: bool,
         #[serde(default)]
         keep_rejected: bool,
+        /// a level-triggered socket registered directly on a sub-token of its own; with
+        /// `synth_on_sock` the synthetic events of before_sleep carry that same token (data
+        /// already buffered in user space, the Wayland pattern), so a polled and a synthetic
+        /// event for one token can meet in one dispatch
+        #[serde(default)]
+        sock: bool,
+        #[serde(default)]
+        synth_on_sock: bool,
     },
     /// a parent holding TransientSource<child>; child over a pipe read end or a timer
     InsertTransient { id: Id, child: ChildSpec, from_default: bool, script: Script },
